@@ -271,6 +271,36 @@ func (propC16) Generate(r *Rand, tier string) []Case {
 		}
 	}
 
+	// 3b. many arguments (more than 64): all used; one beyond the 64th unused; surplus arguments; a missing one
+	for _, n := range []int{63, 64, 65, 70, 130} {
+		mk := func(skip int, upto int) string {
+			var b strings.Builder
+			b.WriteString("SELECT id FROM t WHERE id IN (")
+			first := true
+			for i := 1; i <= upto; i++ {
+				if i == skip {
+					continue
+				}
+				if !first {
+					b.WriteString(", ")
+				}
+				first = false
+				fmt.Fprintf(&b, "$%d", i)
+			}
+			b.WriteString(")")
+			return b.String()
+		}
+		var args []c16Arg
+		for i := 0; i < n; i++ {
+			args = append(args, c16IntArg(int64(i)))
+		}
+		add(c16In{Kind: "san", T: c16Q(mk(0, n)), Args: args}, []string{"accounting", "many-arguments", "all-used"}, true)
+		add(c16In{Kind: "san", T: c16Q(mk(n-1, n)), Args: args}, []string{"accounting", "many-arguments", "one-unused-near-the-end"}, true)
+		add(c16In{Kind: "san", T: c16Q(mk(0, n-2)), Args: args}, []string{"accounting", "many-arguments", "surplus"}, true)
+		add(c16In{Kind: "san", T: c16Q(mk(0, n+1)), Args: args}, []string{"accounting", "many-arguments", "missing"}, true)
+		add(c16In{Kind: "san", T: c16Q(mk(2, n)), Args: args}, []string{"accounting", "many-arguments", "one-unused-near-the-start"}, true)
+	}
+
 	// 4. structured templates with decoys and random arguments
 	for i := 0; i < 1000*scale; i++ {
 		t, k, tags := c16Template(r)
